@@ -15,8 +15,10 @@ c f p q  len(server.clients), len(fd_to_conn), descriptors registered with the p
          a wrapper installed on the instance), descriptors waiting in the pool's active queue
 fd       descriptors the server process holds beyond its baseline and beyond the harness's own client sockets
 ch       forking: live child processes
-n        complete frames the server-side connections have consumed so far (a progress counter: a class-level wrapper
-         around `Connection.serve` installed by the harness for the duration of a case, never in /repo)
+n        complete top-level frames the server-side connections have consumed so far (a progress counter: class-level
+         wrappers around `Connection.serve` / `_dispatch` installed by the harness for the duration of a case, never in
+         /repo; not counted: what a handler exchanges with the client while it runs (nested serve calls), the client
+         library's GETROOT / INSPECT housekeeping, and the client's replies to requests the SERVER made)
 per client: has it seen end-of-stream (or closed itself); index of its service instance in order of creation;
          how often on_connect / on_disconnect ran for that instance
 
@@ -109,6 +111,20 @@ def make_service(record):
             self.marks.append(k)
             return tuple(self.marks)
 
+        def exposed_consume(self, how, obj, arg):
+            # uses a by-reference ARGUMENT of the client: every access is a callback to that client
+            if how == "list":
+                return tuple(obj)
+            if how == "len":
+                return len(obj)
+            if how == "index":
+                return obj[arg]
+            if how == "call":
+                return obj(arg)
+            if how == "sum":
+                return sum(obj)
+            raise ValueError(how)
+
         def exposed_make(self, k):
             o = Obj(k)
             self.lent.append(o)
@@ -195,22 +211,36 @@ def install_frame_counter(sink=None):
             v = brine.load(data)
             if v[0] == consts.MSG_REQUEST and v[2][0] in skip:
                 tls.skip = True
+            if v[0] in (consts.MSG_REPLY, consts.MSG_EXCEPTION):
+                # a client's answer to something the SERVER asked (at top level: to its asynchronous release notices for the
+                # client's objects): housekeeping of the callbacks, not a frame of the client's own making
+                tls.skip = True
         except Exception:  # noqa
             pass
         return orig_dispatch(self, data)
 
     def serve(self, timeout=1, wait_for_lock=True):
+        # only top-level frames count: what a handler exchanges with the client while it runs (its callbacks' replies,
+        # consumed by nested serve() calls on this thread) belongs to the request being handled
+        depth = getattr(tls, "depth", 0)
+        outer_skip = getattr(tls, "skip", False)
+        tls.depth = depth + 1
         tls.skip = False
         try:
-            r = orig(self, timeout, wait_for_lock)
-        except EOFError:
-            raise
-        except BaseException:
-            count(self)
-            raise
-        if r:
-            count(self)
-        return r
+            try:
+                r = orig(self, timeout, wait_for_lock)
+            except EOFError:
+                raise
+            except BaseException:
+                if depth == 0:
+                    count(self)
+                raise
+            if r and depth == 0:
+                count(self)
+            return r
+        finally:
+            tls.depth = depth
+            tls.skip = outer_skip
     Connection.serve = serve
     Connection._dispatch = _dispatch
 
@@ -624,6 +654,25 @@ class Client(object):
                     return "keyerr"
                 except AttributeError:
                     return "resolved"        # found, then refused by the attribute policy: the reference did resolve
+            if what == "use":
+                how, obj, a, want = USES[arg % len(USES)]()
+                res = conn.sync_request(_c.HANDLE_CALLATTR, conn.root, "consume", (how, obj, a), ())
+                return "pong" if res == want and type(res) is type(want) else "wrong:%r" % (res,)
+            if what == "poison":
+                n, m = arg
+                name = POISON_NAMES[n % len(POISON_NAMES)]
+                answer = POISON_ANSWERS[m % len(POISON_ANSWERS)]
+                conn._HANDLERS[_c.HANDLE_INSPECT] = lambda _self, _id_pack, _a=answer: _a
+                mod, _, cls_name = name.rpartition(".")
+                fake = type(cls_name, (object,), {"__module__": mod})()
+                self.refs.append(fake)
+                try:
+                    conn.sync_request(_c.HANDLE_CALLATTR, conn.root, "consume", ("list", fake, 0), ())
+                except EOFError:
+                    raise
+                except Exception:  # noqa   (the server is expected to answer with an exception)
+                    pass
+                return "-"
             if what == "drop":
                 # let go of a lent object: one HANDLE_DEL request (the proxy itself is kept, so its finalizer stays quiet)
                 conn.sync_request(_c.HANDLE_DEL, arg, 1)
@@ -731,6 +780,35 @@ class Client(object):
             return False
 
 
+# by-reference arguments a well-behaved client passes: (how the service uses it, the object, an argument, expected result)
+USES = [
+    lambda: ("list", range(5), 0, (0, 1, 2, 3, 4)),
+    lambda: ("list", {1: 2, 3: 4}.keys(), 0, (1, 3)),
+    lambda: ("list", {1: 2, 3: 4}.values(), 0, (2, 4)),
+    lambda: ("list", {1: 2, 3: 4}.items(), 0, ((1, 2), (3, 4))),
+    lambda: ("list", map(abs, [-1, 2, -3]), 0, (1, 2, 3)),
+    lambda: ("list", zip([1, 2], [3, 4]), 0, ((1, 3), (2, 4))),
+    lambda: ("list", enumerate([7, 8]), 0, ((0, 7), (1, 8))),
+    lambda: ("list", reversed([1, 2, 3]), 0, (3, 2, 1)),
+    lambda: ("list", (i * i for i in range(4)), 0, (0, 1, 4, 9)),
+    lambda: ("len", memoryview(b"abc"), 0, 3),
+    lambda: ("list", iter(bytearray(b"ab")), 0, (97, 98)),
+    lambda: ("index", range(2, 20, 3), 2, 8),
+    lambda: ("call", (lambda x: x + 1), 3, 4),
+    lambda: ("len", {1: 2, 3: 4}.keys(), 0, 2),
+    lambda: ("sum", range(10), 0, 45),
+    lambda: ("index", memoryview(b"abc"), 1, 98),
+]
+# what a hostile client calls the object it passes, and how it answers the server's HANDLE_INSPECT about it
+POISON_NAMES = ["builtins.range", "builtins.dict_keys", "builtins.dict_values", "builtins.dict_items", "builtins.map",
+                "builtins.zip", "builtins.enumerate", "builtins.reversed", "builtins.bytearray_iterator",
+                "builtins.range_iterator", "builtins.generator", "builtins.memoryview", "builtins.function",
+                "builtins.dict_keyiterator", "servers.Obj", "servers.VerifService", "builtins.list_reverseiterator",
+                "builtins.zip", "builtins.range"]
+POISON_ANSWERS = [(), 5, (("x",),), (("__getattribute__", "d"), ("__class__", "d"), ("__reduce__", "d"), ("__del__", "d")),
+                  (("__iter__", None),), ()]
+
+
 def ping_frame(seq=7):
     """a well-formed request frame: (MSG_REQUEST, seq, (HANDLE_PING, boxed ("x",)))"""
     from rpyc.core import brine, consts
@@ -807,6 +885,18 @@ class Session(object):
             if t == "i":
                 c.send_raw(b"".join(ITEM_BYTES[x]() for x in rest.split(":")[1]))
                 return "-"
+        if t == "u":
+            k, n = rest.split(":")
+            c = self.clients.get(int(k))
+            if c is None or not c.open:
+                return "skip"
+            return c.call("use", int(n))
+        if t == "x":
+            k, n, m = rest.split(":")
+            c = self.clients.get(int(k))
+            if c is None or not c.open:
+                return "skip"
+            return c.call("poison", (int(n), int(m)))
         if t == "o":
             k, n = rest.split(":")
             c = self.clients.get(int(k))
